@@ -3,3 +3,4 @@ NEXT Next
 INVARIANT Sane
 CONSTANTS
   Deep = FALSE
+  MaxDepth = 1024
